@@ -657,18 +657,22 @@ impl<K: Kmer, D: Debug> DebruijnGraph<K, D> {
         writeln!(writer, "],").unwrap();
 
         writeln!(writer, "\"links\": [").unwrap();
+        // the separator goes before every link group but the first one written: whether a later
+        // node has links at all is not known when a group ends
+        let mut wrote_any = false;
         for i in 0..self.len() {
             let node = self.get_node(i);
-            match node.edges_to_json(writer) {
-                true => {
-                    if i == self.len() - 1 {
-                        writeln!(writer).unwrap();
-                    } else {
-                        writeln!(writer, ",").unwrap();
-                    }
-                }
-                _ => continue,
+            if node.r_edges().is_empty() {
+                continue;
             }
+            if wrote_any {
+                writeln!(writer, ",").unwrap();
+            }
+            node.edges_to_json(writer);
+            wrote_any = true;
+        }
+        if wrote_any {
+            writeln!(writer).unwrap();
         }
         writeln!(writer, "]").unwrap();
 
